@@ -123,7 +123,7 @@ ClauseNames ==
     "C18_where", "C18_same_store", "C18_lands", "C18_reads_work", "C18_lock", "C18_init",
     "C19_all_once", "C19_active_once", "C19_ready_exact", "C19_known_rows", "C19_tree", "C19_summary", "C19_empty", "C19_fits", "C19_idcol", "C19_utf8",
     "C12_file_total", "C12_file_names_line", "C12_file_shows", "C12_file_deterministic", "C12_file_pure",
-    "C17_roundtrip", "C17_stays", "C17_accepted",
+    "C17_roundtrip", "C17_stays", "C17_accepted", "C17_overlimit",
     "R_step", "R_reply", "R_time", "R_preview", "R_faillog" }
 
 Eval(n, o) ==
@@ -223,6 +223,7 @@ Eval(n, o) ==
     [] n = "C17_roundtrip" -> Tx!C17_roundtrip(o.text)
     [] n = "C17_stays" -> Tx!C17_stays(o.text)
     [] n = "C17_accepted" -> Tx!C17_accepted(o.text)
+    [] n = "C17_overlimit" -> Tx!C17_overlimit(o.text)
     [] n = "R_step" -> R_step(o)
     [] n = "R_reply" -> R_reply(o)
     [] n = "R_time" -> R_time(o)
